@@ -41,3 +41,93 @@ pub fn load(src: &str) -> Result<Chunk, LoadError> {
 pub fn free_names(chunk: &Chunk) -> Vec<(String, u32, bool, u32)> {
     chunk.prog.free_names.iter().map(|f| (f.name.clone(), f.line, f.is_write, f.depth)).collect()
 }
+
+mod arith;
+mod call;
+mod errors;
+mod eval;
+mod exec;
+mod interp;
+mod lib_base;
+mod lib_math;
+mod lib_os_io;
+mod lib_stubs;
+mod lib_string;
+mod lib_table;
+mod lpattern;
+mod meta;
+mod run;
+mod strformat;
+mod table;
+mod value;
+
+pub use run::{run, run_source};
+
+#[derive(Clone, Debug, PartialEq, Eq)]
+pub enum ErrClass {
+    Arith,
+    Concat,
+    Call,
+    Index,
+    Compare,
+    Assert,
+    ErrorCall,
+    /// nil or NaN used as a table key
+    TableIndex,
+    ForLoop,
+    StackOverflow,
+    Other,
+}
+
+#[derive(Clone, Debug, PartialEq)]
+pub enum Outcome {
+    /// the chunk ran to completion
+    Done,
+    /// an uncaught Lua error; `message` includes the `input:LINE:` prefix when Lua would add it
+    Error { class: ErrClass, message: String, line: u32 },
+    /// the step budget was exhausted (not an error of the program)
+    StepLimit,
+    /// the program used something this interpreter does not implement
+    Unsupported(String),
+}
+
+#[derive(Clone, Debug)]
+pub struct RunOptions {
+    pub max_steps: u64,
+    pub max_call_depth: usize,
+    pub record_events: bool,
+    /// if false, `print`/`io.write` go to the real stdout
+    pub capture_output: bool,
+    /// seed for math.random (deterministic)
+    pub seed: u64,
+}
+
+impl Default for RunOptions {
+    fn default() -> Self {
+        RunOptions { max_steps: 50_000_000, max_call_depth: 7000, record_events: false, capture_output: true, seed: 0 }
+    }
+}
+
+#[derive(Clone, Debug, PartialEq, Eq)]
+pub enum Event {
+    /// a Lua function is entered (the main chunk is activation 0 and gets no Enter event)
+    Enter { act: u64, parent_act: u64, func_line: u32 },
+    /// normal return or unwinding by error
+    Exit { act: u64 },
+    /// `name = v` on a global matching ^V[0-9]+$
+    GlobalWrite { act: u64, name: String },
+    /// read of a global matching ^V[0-9]+$
+    GlobalRead { act: u64, name: String },
+    /// a `function` expression / `local function` was evaluated
+    Closure { act: u64, func_line: u32 },
+}
+
+#[derive(Clone, Debug)]
+pub struct RunResult {
+    pub outcome: Outcome,
+    /// everything print/io.write produced (lossy UTF-8), if `capture_output`
+    pub output: String,
+    pub requires: Vec<String>,
+    pub events: Vec<Event>,
+    pub steps: u64,
+}
